@@ -93,12 +93,21 @@ Definition agree_out (F : list nat) (v d : list bid) : bool :=
 Definition mapi {A B} (f : nat -> A -> B) (l : list A) : list B :=
   map (fun ix => f (fst ix) (snd ix)) (combine (seq 0 (length l)) l).
 
+(* the xor of blocks named by ids, as a multiset of ids: the zero block is neutral, two equal blocks cancel *)
+Fixpoint xor_toggle (x : bid) (m : list bid) : list bid :=
+  match m with
+  | [] => [x]
+  | y :: t => if N.eqb x y then t else y :: xor_toggle x t
+  end.
+Definition xor_ids (l : list bid) : list bid := fold_left (fun m x => if N.eqb x 0 then m else xor_toggle x m) l [].
+
 (* raid_data(|F|, F, levels of `used`, ...) on the buffer d; jn = junk counter.
-   xor1 = exactly one level is used and it is the first one (plain XOR parity: every coefficient is 1).  There the id
-   abstraction can still name the result when the buffer disagrees with the encoded vector v at exactly ONE position i
-   outside F, holding zero in the buffer, while v is zero at the single failed position j: the result is
-   v_j + (v_i + d_i) = v_i -- a block that was MOVED from disk i to disk j at the same stripe position (and whose old
-   place now reads as zero: DELETED) comes back although the parity is stale.  Every other disagreement gives junk. *)
+   xor1 = exactly one level is used and it is the first one (plain XOR parity: every coefficient is 1).  There, with a
+   single failed position j, the result is v_j + sum over the other positions i of (v_i + d_i), and the id abstraction can
+   still name it whenever that sum cancels down to at most one block: blocks that were MOVED between the other disk positions
+   of the stripe (or moved away / copied to another disk) since the parity was computed cancel out although the parity is
+   stale, and a block that moved from disk i to the failed disk j (old place now reading as zero) comes back.  Any result
+   that does not cancel down to one block is junk. *)
 Definition reconstruct (xor1 : bool) (F : list nat) (used : list penc) (d : list bid) (jn : N) : list bid * N :=
   let junk := (mapi (fun i x => if memn i F then (JBASE + jn + N.of_nat i)%N else x) d, (jn + N.of_nat (length d))%N) in
   match used with
@@ -108,10 +117,10 @@ Definition reconstruct (xor1 : bool) (F : list nat) (used : list penc) (d : list
       else if xor1 then
         match F, rest with
         | [j], [] =>
-            match filter (fun i => negb (memn i F) && negb (N.eqb (vnth v i) (vnth d i))) (seq 0 (Nat.max (length v) (length d))) with
-            | [i] => if N.eqb (vnth v j) 0 && N.eqb (vnth d i) 0
-                     then (mapi (fun k x => if Nat.eqb k j then vnth v i else x) d, jn)
-                     else junk
+            let others := filter (fun i => negb (Nat.eqb i j)) (seq 0 (Nat.max (length v) (length d))) in
+            match xor_ids (vnth v j :: flat_map (fun i => [vnth v i; vnth d i]) others) with
+            | [] => (mapi (fun k x => if Nat.eqb k j then 0%N else x) d, jn)
+            | [x] => (mapi (fun k x0 => if Nat.eqb k j then x else x0) d, jn)
             | _ => junk
             end
         | _, _ => junk
